@@ -44,6 +44,29 @@ def run(ctx: core.Ctx):
             ctx.case((variant, tuple(arr), nd, lam, prm.get("p")), nontrivial=lam != 0 and sum(m) >= 2,
                      sample=dict(variant=variant, y=[int(v) for v in arr[:12]], nodata=nd, lam=lam, p=prm.get("p")))
             ctx.count(variant)
+    # long series with extreme envelope values: the re-weighting is still moving after 10 passes (Float model only)
+    xlines, xrefs = [], []
+    for k in range(ctx.budget(12, 80)):
+        n = rng.choice([72, 120, 200, 300])
+        y, m, prm = smooth.make_case(rng, "pgu", n=n, kind=rng.choice(["ndvi", "walk", "sign"]), min_ok=2)
+        prm["p"] = rng.choice([0.999, 0.9999, 0.99999, 0.001, 0.0001])
+        prm["lam"] = rng.choice([1.0, 10.0, 100.0])
+        nd = gen.placeholder(rng, [v for v, ok in zip(y, m) if ok])
+        arr = smooth.encode(y, m, nd)
+        band, _ = smooth.call("pgu", arr, nd, prm)
+        xlines.append(smooth.line("pgu", arr, nd, prm))
+        xrefs.append((arr, nd, prm, band))
+        ctx.case(("pgu-extreme", tuple(arr), nd, prm["lam"], prm["p"]), sample=dict(variant="pgu", n=n, p=prm["p"], lam=prm["lam"]))
+        ctx.count("pgu extreme p")
+    for (arr, nd, prm, band), a in zip(xrefs, ctx.driver.ask(xlines)):
+        mm = smooth.parse_answer(a)
+        if mm[0] == "curve" and smooth.in_int16(mm[1]) and not np.array_equal(np.array(mm[2]), band.astype(float)):
+            ok, _ = smooth.band_matches(band, mm[1])
+            if not ok:
+                ctx.disagree("F", "pgu", dict(variant="pgu", y=[int(v) for v in arr], nodata=nd, params=prm), mm[2][:8], band[:8].tolist(),
+                             note="asymmetric smoother: at most 10 re-weighting passes from the zero curve, then the fit with the last weights")
+                ctx.fail("pgu", dict(y=[int(v) for v in arr], nodata=nd, params=prm), band.tolist(), [int(v) for v in mm[2]],
+                         note="band differs from the curve reached by at most 10 re-weighting passes started from the zero curve (Lean model, bit-identical to the kernel on the unchanged tree)")
     fans = ctx.driver.ask(flines)
     qans = ctx.driver.ask(qlines, timeout=1800)
     tie_tol = 0
